@@ -72,6 +72,8 @@ OutF(s, op) ==
       [] op.n = "pop"       -> PopOut(s)
       [] op.n = "delete"    -> DeleteOut(s, op.a[1])
       [] op.n = "clear"     -> { O([s EXCEPT !.b = <<>>], Unit) }
+      \* the heap a Merge / Meld was called on is converted and pushed to afterwards: nothing to do with this one
+      [] op.n = "convprev"  -> { O(s, Unit) }
       [] op.n = "convert"   -> { O([s EXCEPT !.c = CmpName(op.a[1])], Unit) }
       \* mergex / meldx: the second heap was built under the opposite comparator; the result is a heap of the receiver
       [] op.n \in {"merge", "mergex"} -> MergeOut(s, op.a)
